@@ -55,6 +55,19 @@ pub enum P2 {
     },
 }
 
+/// more value types: char, an optional flag (Option<bool>), u16 with a typed default
+#[derive(Command)]
+pub enum P4 {
+    Ty {
+        #[arg(short = 'c')]
+        ch: Option<char>,
+        #[arg(short = 'b')]
+        on: Option<bool>,
+        #[arg(short = 'w', default_value_t = 300)]
+        wide: u16,
+    },
+}
+
 #[derive(Command)]
 pub enum P3 {
     Ping,
@@ -94,6 +107,13 @@ const F_CFG: [Field; NF] = [
 ];
 const U_CFG: [&str; NF] = ["", "-k <KY>", ""];
 
+const F_TY: [Field; NF] = [
+    Field { kind: OPT, short: 'c' as u32, ty: T_CHAR, optional: true, ..NO_FIELD },
+    // a bool field is a flag even when declared as Option<bool>: given -> Some(true), absent -> None
+    Field { kind: FLAG, short: 'b' as u32, ty: T_BOOL, optional: true, ..NO_FIELD },
+    Field { kind: OPT, short: 'w' as u32, ty: T_U16, has_default: true, default_int: 300, ..NO_FIELD },
+];
+
 const F_NONE: [Field; NF] = [NO_FIELD, NO_FIELD, NO_FIELD];
 const U_NONE: [&str; NF] = ["", "", ""];
 
@@ -119,6 +139,12 @@ fn ty_of(expected: &str) -> u8 {
         T_U8
     } else if e.len() == 2 && e[0] == b'i' && e[1] == b'8' {
         T_I8
+    } else if e.len() == 3 && e[0] == b'u' && e[1] == b'1' && e[2] == b'6' {
+        T_U16
+    } else if e.len() == 4 && e[0] == b'c' && e[1] == b'h' {
+        T_CHAR
+    } else if e.len() == 4 && e[0] == b'b' && e[1] == b'o' {
+        T_BOOLV
     } else {
         99
     }
@@ -371,6 +397,48 @@ per_len!(n4, 4);
 per_len!(n5, 5);
 #[cfg(vp_thorough)]
 per_len!(n6, 6);
+
+fn p4_ty_body(n: usize) {
+    let inp = any_args(n);
+    let want = spec_parse::<L, L1>(&F_TY, 3, false, &inp.raw, &inp.items, inp.nitems);
+    kani::assume(!want.open);
+    let text = unsafe { core::str::from_utf8_unchecked(&inp.raw[..inp.n]) };
+    let base = text.as_ptr() as usize;
+    let cmd = RawCommand::new("ty", ArgList::new(Tokens::from_raw(text, inp.is_empty)));
+    let got = match P4::parse(cmd) {
+        Err(e) => project_err(e, base, &U_NONE),
+        Ok(P4::Ty { ch, on, wide }) => {
+            let mut o = blank();
+            o.present[0] = ch.is_some();
+            o.ival[0] = ch.unwrap_or('\0') as i32;
+            o.present[1] = on.is_some();
+            o.ival[1] = on.unwrap_or(false) as i32;
+            o.present[2] = true;
+            o.ival[2] = wide as i32;
+            o
+        }
+    };
+    assert!(same_out(&F_TY, 3, &want, &got), "C09: derived parser and declaration agree");
+    kani::cover!(n < 5 || (want.kind == OK && want.present[0] && want.ival[0] > 0x7f), "multi-byte char value");
+    kani::cover!(n < 2 || (want.kind == OK && want.present[1]), "optional flag given");
+    kani::cover!(n < 4 || (want.kind == OK && want.ival[2] != 300), "u16 given");
+    kani::cover!(n < 5 || (want.kind == E_PARSE_VALUE && want.which == T_CHAR), "two characters are not a char");
+    kani::cover!(n > 0 || (want.kind == OK && want.ival[2] == 300), "typed default");
+}
+
+macro_rules! p4_len {
+    ($name:ident, $n:expr) => {
+        #[kani::proof]
+        #[kani::unwind(9)]
+        fn $name() {
+            p4_ty_body($n);
+        }
+    };
+}
+p4_len!(p4_ty_n0, 0);
+p4_len!(p4_ty_n3, 3);
+p4_len!(p4_ty_n4, 4);
+p4_len!(p4_ty_n5, 5);
 
 /// Name dispatch of P1 (kebab-case / explicit names) and of the group G (members in
 /// order, hidden member still parses, catch-all last): symbolic name, no arguments.
